@@ -161,6 +161,8 @@ inductive EncErr where
   | key        -- KeyError: INSTRUCTIONS[name] missing
   deriving Repr, DecidableEq
 
+deriving instance DecidableEq for Except
+
 abbrev EncRes := Except EncErr Nat
 
 def ofOpt (o : Option Nat) : EncRes := match o with | some w => .ok w | none => .error .value
@@ -176,88 +178,196 @@ def intOrParse (r : RegOp) : Except EncErr Int :=
   | .int i => .ok i
   | .str s => match pyInt0 s.toList with | some i => .ok i | none => .error .value
 
-/-- `encode_func(*args)` for a table entry.  Argument shapes other than those the item classes
-    produce are `TypeError`s in Python; the model reports them as `.type`. -/
-def encodeKind (k : EncKind) (args : List Arg) : EncRes :=
-  match k, args with
-  | .r op f3 f7, [.r rd, .r rs1, .r rs2] => do
+/-- one function per encoder kind: the call `encode_func(*args)`.  Argument shapes other than
+    those the item classes produce are `TypeError`s in Python; the model reports them as `.type`. -/
+def encR (op : Nat) (f3 : Nat) (f7 : Nat) : List Arg → EncRes
+  | [.r rd, .r rs1, .r rs2] => do
       let rd ← lookR rd; let rs1 ← lookR rs1; let rs2 ← lookR rs2
       pure (rTypeN rd rs1 rs2 op f3 f7)
-  | .i op f3, [.r rd, .r rs1, .i imm] => do
+  | _ => .error .type
+
+def encI (op : Nat) (f3 : Nat) : List Arg → EncRes
+  | [.r rd, .r rs1, .i imm] => do
       let rd ← lookR rd; let rs1 ← lookR rs1
       ofOpt (iTypeN rd rs1 imm op f3)
-  | .ij op f3, [.r rd, .r rs1, .i imm] => do
+  | _ => .error .type
+
+def encIj (op : Nat) (f3 : Nat) : List Arg → EncRes
+  | [.r rd, .r rs1, .i imm] => do
       let rd ← lookR rd; let rs1 ← lookR rs1
       ofOpt (ijTypeN rd rs1 imm op f3)
-  | .ie op f3 imm, [] => ofOpt (iTypeN 0 0 (Int.ofNat imm) op f3)
-  | .s op f3, [.r rs1, .r rs2, .i imm] => do
+  | _ => .error .type
+
+def encIe (op : Nat) (f3 : Nat) (imm : Nat) : List Arg → EncRes
+  | [] => ofOpt (iTypeN 0 0 (Int.ofNat imm) op f3)
+  | _ => .error .type
+
+def encS (op : Nat) (f3 : Nat) : List Arg → EncRes
+  | [.r rs1, .r rs2, .i imm] => do
       let rs1 ← lookR rs1; let rs2 ← lookR rs2
       ofOpt (sTypeN rs1 rs2 imm op f3)
-  | .b op f3, [.r rs1, .r rs2, .i imm] => do
+  | _ => .error .type
+
+def encB (op : Nat) (f3 : Nat) : List Arg → EncRes
+  | [.r rs1, .r rs2, .i imm] => do
       let rs1 ← lookR rs1; let rs2 ← lookR rs2
       ofOpt (bTypeN rs1 rs2 imm op f3)
-  | .u op, [.r rd, .i imm] => do
+  | _ => .error .type
+
+def encU (op : Nat) : List Arg → EncRes
+  | [.r rd, .i imm] => do
       let rd ← lookR rd
       ofOpt (uTypeN rd imm op)
-  | .j op, [.r rd, .i imm] => do
+  | _ => .error .type
+
+def encJ (op : Nat) : List Arg → EncRes
+  | [.r rd, .i imm] => do
       let rd ← lookR rd
       ofOpt (jTypeN rd imm op)
-  | .fence op f3, [.r succ, .r pred] => do
+  | _ => .error .type
+
+def encFence (op : Nat) (f3 : Nat) : List Arg → EncRes
+  | [.r succ, .r pred] => do
       let succ ← intOrParse succ; let pred ← intOrParse pred
       ofOpt (fenceN succ pred op f3 0 0 0)
-  | .a op f3 f5, [.r rd, .r rs1, .r rs2, .r aq, .r rl] => do
+  | _ => .error .type
+
+def encA (op : Nat) (f3 : Nat) (f5 : Nat) : List Arg → EncRes
+  | [.r rd, .r rs1, .r rs2, .r aq, .r rl] => do
       let aq ← intOrParse aq; let rl ← intOrParse rl
       if ¬ (aq = 0 ∨ aq = 1) then throw .value
       if ¬ (rl = 0 ∨ rl = 1) then throw .value
       let rd ← lookR rd; let rs1 ← lookR rs1; let rs2 ← lookR rs2
       ofOpt (aTypeN rd rs1 rs2 op f3 f5 aq rl)
-  | .al op f3 f5, [.r rd, .r rs1, .r aq, .r rl] => do
+  | _ => .error .type
+
+def encAl (op : Nat) (f3 : Nat) (f5 : Nat) : List Arg → EncRes
+  | [.r rd, .r rs1, .r aq, .r rl] => do
       let aq ← intOrParse aq; let rl ← intOrParse rl
       if ¬ (aq = 0 ∨ aq = 1) then throw .value
       if ¬ (rl = 0 ∨ rl = 1) then throw .value
       let rd ← lookR rd; let rs1 ← lookR rs1
       ofOpt (aTypeN rd rs1 0 op f3 f5 aq rl)
-  | .cr op f4 cs, [.r rdRs1, .r rs2] => do
+  | _ => .error .type
+
+def encCr (op : Nat) (f4 : Nat) (cs : List Constraint) : List Arg → EncRes
+  | [.r rdRs1, .r rs2] => do
       let rdRs1 ← lookR rdRs1; let rs2 ← lookR rs2
       ofOpt (crTypeN rdRs1 rs2 op f4 cs)
-  | .crj op f4 cs, [.r rdRs1] => do
+  | _ => .error .type
+
+def encCrj (op : Nat) (f4 : Nat) (cs : List Constraint) : List Arg → EncRes
+  | [.r rdRs1] => do
       let rdRs1 ← lookR rdRs1
       ofOpt (crTypeN rdRs1 0 op f4 cs)
-  | .cre op f4, [] => ofOpt (crTypeN 0 0 op f4 [])
-  | .ci op f3 cs, [.r rdRs1, .i imm] => do
+  | _ => .error .type
+
+def encCre (op : Nat) (f4 : Nat) : List Arg → EncRes
+  | [] => ofOpt (crTypeN 0 0 op f4 [])
+  | _ => .error .type
+
+def encCi (op : Nat) (f3 : Nat) (cs : List Constraint) : List Arg → EncRes
+  | [.r rdRs1, .i imm] => do
       let rdRs1 ← lookR rdRs1
       ofOpt (ciTypeN rdRs1 imm op f3 cs)
-  | .cia op f3 cs, [.i imm] => ofOpt (ciaTypeN imm op f3 cs)
-  | .cin op f3, [] => ofOpt (ciTypeN 0 0 op f3 [])
-  | .ciu op f3 cs, [.r rdRs1, .i imm] => do
+  | _ => .error .type
+
+def encCia (op : Nat) (f3 : Nat) (cs : List Constraint) : List Arg → EncRes
+  | [.i imm] => ofOpt (ciaTypeN imm op f3 cs)
+  | _ => .error .type
+
+def encCin (op : Nat) (f3 : Nat) : List Arg → EncRes
+  | [] => ofOpt (ciTypeN 0 0 op f3 [])
+  | _ => .error .type
+
+def encCiu (op : Nat) (f3 : Nat) (cs : List Constraint) : List Arg → EncRes
+  | [.r rdRs1, .i imm] => do
       let rdRs1 ← lookR rdRs1
       ofOpt (ciuTypeN rdRs1 imm op f3 cs)
-  | .cil op f3 cs, [.r rdRs1, .i imm] => do
+  | _ => .error .type
+
+def encCil (op : Nat) (f3 : Nat) (cs : List Constraint) : List Arg → EncRes
+  | [.r rdRs1, .i imm] => do
       let rdRs1 ← lookR rdRs1
       ofOpt (cilTypeN rdRs1 imm op f3 cs)
-  | .css op f3 cs, [.r rs2, .i imm] => do
+  | _ => .error .type
+
+def encCss (op : Nat) (f3 : Nat) (cs : List Constraint) : List Arg → EncRes
+  | [.r rs2, .i imm] => do
       let rs2 ← lookR rs2
       ofOpt (cssTypeN rs2 imm op f3 cs)
-  | .ciw op f3 cs, [.r rd, .i imm] => do
+  | _ => .error .type
+
+def encCiw (op : Nat) (f3 : Nat) (cs : List Constraint) : List Arg → EncRes
+  | [.r rd, .i imm] => do
       let rd ← lookRC rd
       ofOpt (ciwTypeN rd imm op f3 cs)
-  | .cl op f3 cs, [.r rd, .r rs1, .i imm] => do
+  | _ => .error .type
+
+def encCl (op : Nat) (f3 : Nat) (cs : List Constraint) : List Arg → EncRes
+  | [.r rd, .r rs1, .i imm] => do
       let rd ← lookRC rd; let rs1 ← lookRC rs1
       ofOpt (clTypeN rd rs1 imm op f3 cs)
-  | .cs op f3 cs, [.r rs1, .r rs2, .i imm] => do
+  | _ => .error .type
+
+def encCs (op : Nat) (f3 : Nat) (cs : List Constraint) : List Arg → EncRes
+  | [.r rs1, .r rs2, .i imm] => do
       let rs1 ← lookRC rs1; let rs2 ← lookRC rs2
       ofOpt (csTypeN rs1 rs2 imm op f3 cs)
-  | .ca op f2 f6 cs, [.r rdRs1, .r rs2] => do
+  | _ => .error .type
+
+def encCa (op : Nat) (f2 : Nat) (f6 : Nat) (cs : List Constraint) : List Arg → EncRes
+  | [.r rdRs1, .r rs2] => do
       let rdRs1 ← lookRC rdRs1; let rs2 ← lookRC rs2
       ofOpt (caTypeN rdRs1 rs2 op f2 f6 cs)
-  | .cb op f3 cs, [.r rs1, .i imm] => do
+  | _ => .error .type
+
+def encCb (op : Nat) (f3 : Nat) (cs : List Constraint) : List Arg → EncRes
+  | [.r rs1, .i imm] => do
       let rs1 ← lookRC rs1
       ofOpt (cbTypeN rs1 imm op f3 cs)
-  | .cbi op f2 f3 cs, [.r rdRs1, .i imm] => do
+  | _ => .error .type
+
+def encCbi (op : Nat) (f2 : Nat) (f3 : Nat) (cs : List Constraint) : List Arg → EncRes
+  | [.r rdRs1, .i imm] => do
       let rdRs1 ← lookRC rdRs1
       ofOpt (cbiTypeN rdRs1 imm op f2 f3 cs)
-  | .cj op f3 cs, [.i imm] => ofOpt (cjTypeN imm op f3 cs)
-  | _, _ => .error .type
+  | _ => .error .type
+
+def encCj (op : Nat) (f3 : Nat) (cs : List Constraint) : List Arg → EncRes
+  | [.i imm] => ofOpt (cjTypeN imm op f3 cs)
+  | _ => .error .type
+
+/-- `encode_func(*args)` for a table entry -/
+def encodeKind (k : EncKind) (args : List Arg) : EncRes :=
+  match k with
+  | .r op f3 f7 => encR op f3 f7 args
+  | .i op f3 => encI op f3 args
+  | .ij op f3 => encIj op f3 args
+  | .ie op f3 imm => encIe op f3 imm args
+  | .s op f3 => encS op f3 args
+  | .b op f3 => encB op f3 args
+  | .u op => encU op args
+  | .j op => encJ op args
+  | .fence op f3 => encFence op f3 args
+  | .a op f3 f5 => encA op f3 f5 args
+  | .al op f3 f5 => encAl op f3 f5 args
+  | .cr op f4 cs => encCr op f4 cs args
+  | .crj op f4 cs => encCrj op f4 cs args
+  | .cre op f4 => encCre op f4 args
+  | .ci op f3 cs => encCi op f3 cs args
+  | .cia op f3 cs => encCia op f3 cs args
+  | .cin op f3 => encCin op f3 args
+  | .ciu op f3 cs => encCiu op f3 cs args
+  | .cil op f3 cs => encCil op f3 cs args
+  | .css op f3 cs => encCss op f3 cs args
+  | .ciw op f3 cs => encCiw op f3 cs args
+  | .cl op f3 cs => encCl op f3 cs args
+  | .cs op f3 cs => encCs op f3 cs args
+  | .ca op f2 f6 cs => encCa op f2 f6 cs args
+  | .cb op f3 cs => encCb op f3 cs args
+  | .cbi op f2 f3 cs => encCbi op f2 f3 cs args
+  | .cj op f3 cs => encCj op f3 cs args
 
 /-- `INSTRUCTIONS[name](*args)` -/
 def encode (name : String) (args : List Arg) : EncRes :=
